@@ -65,18 +65,19 @@ func TestC10(t *testing.T) {
 func TestReplayC10(t *testing.T) { runReplay(t, "C10", liveCheck(checkC10)) }
 
 func TestC13(t *testing.T) {
-	runProp(t, "C13", checkC13, func(t *rapid.T) *Case {
+	runProp(t, "C13", liveCheck(checkC13), func(t *rapid.T) *Case {
 		c := genTrieCase(t, trieGenOpt{})
 		c.Opt = OptSpec{c.Opt[0], 0, 0, 0}
 		c.Scrib = rapid.IntRange(0, 31).Draw(t, "spelling")
 		genExtra(t, c)
+		genEarlier(t, c)
 		return c
 	})
 }
-func TestReplayC13(t *testing.T) { runReplay(t, "C13", checkC13) }
+func TestReplayC13(t *testing.T) { runReplay(t, "C13", liveCheck(checkC13)) }
 
 func TestC14(t *testing.T) {
-	runProp(t, "C14", checkC14, func(t *rapid.T) *Case {
+	runProp(t, "C14", liveCheck(checkC14), func(t *rapid.T) *Case {
 		c := genTrieCase(t, trieGenOpt{encs: intEncs, needVals: true})
 		if c.Enc == "I32" && rapid.Bool().Draw(t, "reenc") {
 			// undo the I32 weighting of genEnc for this property
@@ -95,28 +96,31 @@ func TestC14(t *testing.T) {
 			c.Pool = []*Case{o}
 		}
 		genExtra(t, c)
+		genEarlier(t, c)
 		return c
 	})
 }
-func TestReplayC14(t *testing.T) { runReplay(t, "C14", checkC14) }
+func TestReplayC14(t *testing.T) { runReplay(t, "C14", liveCheck(checkC14)) }
 
 func TestC18(t *testing.T) {
-	runProp(t, "C18", checkC18, func(t *rapid.T) *Case {
+	runProp(t, "C18", liveCheck(checkC18), func(t *rapid.T) *Case {
 		c := genTrieCase(t, trieGenOpt{})
 		genLegacyLoad(t, c)
+		genEarlier(t, c)
 		return c
 	})
 }
-func TestReplayC18(t *testing.T) { runReplay(t, "C18", checkC18) }
+func TestReplayC18(t *testing.T) { runReplay(t, "C18", liveCheck(checkC18)) }
 
 func TestC19(t *testing.T) {
-	runProp(t, "C19", checkC19, func(t *rapid.T) *Case {
+	runProp(t, "C19", liveCheck(checkC19), func(t *rapid.T) *Case {
 		fams := []famWeight{{"K1", 20}, {"K2", 25}, {"K3", 10}, {"K5", 5}, {"K6", 10}, {"K7", 5}, {"Krand", 5}, {"Kshort", 20}}
 		c := genTrieCase(t, trieGenOpt{encs: renderEncs, fams: fams, slowAPI: true})
+		genEarlier(t, c)
 		return c
 	})
 }
-func TestReplayC19(t *testing.T) { runReplay(t, "C19", checkC19) }
+func TestReplayC19(t *testing.T) { runReplay(t, "C19", liveCheck(checkC19)) }
 
 // genEarlier sometimes adds a trie that is built before the case and kept alive.
 func genEarlier(t *rapid.T, c *Case) {
@@ -202,7 +206,7 @@ func genScans(t *rapid.T, c *Case, n int) {
 }
 
 func TestC04(t *testing.T) {
-	runProp(t, "C04", checkC04, func(t *rapid.T) *Case {
+	runProp(t, "C04", liveCheck(checkC04), func(t *rapid.T) *Case {
 		var c *Case
 		if pickU(t, "refusal?", 4) == 0 {
 			// refusal clause: any non-complete option struct
@@ -224,7 +228,8 @@ func TestC04(t *testing.T) {
 		}
 		genExtra(t, c)
 		genScans(t, c, 12)
+		genEarlier(t, c)
 		return c
 	})
 }
-func TestReplayC04(t *testing.T) { runReplay(t, "C04", checkC04) }
+func TestReplayC04(t *testing.T) { runReplay(t, "C04", liveCheck(checkC04)) }
